@@ -672,3 +672,53 @@ func Classify(x X, prec uint64) string {
 	}
 	return s
 }
+
+// UlpDistance returns |got - want| in units of one unit in the prec-th
+// significant digit of want (finite, non-zero). Values more than a few decades
+// apart yield a large constant instead of materialising the difference.
+func UlpDistance(got, want Val, prec uint64) *big.Rat {
+	far := new(big.Rat).SetInt64(1 << 40)
+	if want.Form != Finite {
+		if got.Equal(want) {
+			return new(big.Rat)
+		}
+		return far
+	}
+	if got.Form == Inf {
+		return far
+	}
+	if got.Form == Zero {
+		got = Val{Form: Finite, Neg: false, Digits: "", Exp: want.Exp}
+	}
+	if d := got.Exp - want.Exp; got.Digits != "" && (d > 2 || d < -2) {
+		return far
+	}
+	// scale both to integers at exponent e = min of low exponents
+	cw, ew := want.Coeff()
+	if want.Neg {
+		cw.Neg(cw)
+	}
+	cg, eg := new(big.Int), ew
+	if got.Digits != "" {
+		cg, eg = got.Coeff()
+		if got.Neg {
+			cg.Neg(cg)
+		}
+	}
+	ulpExp := want.Exp - int64(prec)
+	e := ew
+	if eg < e {
+		e = eg
+	}
+	if ulpExp < e {
+		e = ulpExp
+	}
+	if ew-e > 1<<22 || eg-e > 1<<22 || ulpExp-e > 1<<22 {
+		return far
+	}
+	cw.Mul(cw, pow10(ew-e))
+	cg.Mul(cg, pow10(eg-e))
+	diff := new(big.Int).Sub(cg, cw)
+	diff.Abs(diff)
+	return new(big.Rat).SetFrac(diff, pow10(ulpExp-e))
+}
